@@ -128,7 +128,7 @@ func (fs *FS) Dump() map[string]string {
 }
 
 func clean(name string) string {
-	return path.Clean("/" + strings.ReplaceAll(name, "\\", "/"))
+	return path.Clean("/" + name)
 }
 
 func split(p string) []string {
